@@ -104,9 +104,12 @@ void vf_harness(void) { Array* a; int m; Array_resize(a, m); VF_CANARY(); }
 insert = Unit(
     'Array_insert', 'C01',
     cuts=[Cut('insert', A, r'^Array<T>& Array<T>::insert\(int k, const T& x\)\s*$', **AM, rules=[D_RULE, RET_THIS] + LIFE,
-              post=[(r'\A\{', '{ VF_ANCHOR VF_ANCHOR_X ', 1)])],
+              # R19: elements are relocated bitwise; after the memmove the vacated slot k is dead storage until it is constructed:
+              # its content is made indeterminate, so that constructing the new element FROM that slot is seen (it is only harmless for plain data)
+              post=[(r'\A\{', '{ VF_ANCHOR VF_ANCHOR_X ', 1), (r'(memmove\(\(char\*\)self->_a \+ \(k \+ 1\) \* sizeof\(T\), \(void\*\)\(self->_a \+ k\), \(n - k\) \* sizeof\(T\)\);)', r'\1 VF_POISON(self->_a + k);', None)])],
     text=PRE + r'''
-int g_j;
+int g_j; T nondet_T(void);
+#define VF_POISON(p) { *(p) = nondet_T(); }
 #if ALIAS == 0
 #define VF_ANCHOR_X
 #define X_REQ __CPROVER_requires(__CPROVER_is_fresh(x_p, sizeof(T)))
@@ -240,3 +243,48 @@ void vf_harness(void) { Array* a; const Array* b; Array_assign(a, b); VF_CANARY(
 UNITS += [h_copy, h_dtor, h_assign]
 LEVEL = 'other'
 EXPLANATION = 'Every C01 unit fixes the block capacity per variant (CBMC cannot encode realloc/memmove on a block whose size is symbolic); obligations are discharged for all n, indices, reference counts, contents and aliasing choices at those capacities. Counts are reported under coverage.bounded.'
+
+# append(const Array& b): b a separate array, or b the SAME handle (a.append(a))
+append_arr = Unit(
+    'Array_append_array', 'C01',
+    cuts=HELP_CUTS() + [Cut('resize_b', A, r'^\tArray& resize\(int m\)\s*$', **AM, rules=[D_RULE, RET_THIS] + LIFE),
+                        Cut('app', A, r'^\tArray& append\(const Array& b\)\s*$', **AM,
+                            rules=[D_RULE, RET_THIS, (r'\bb\.length\(\)', 'Array_length(b_p)', None), (r'\bb\[([^\]]*)\]', r'b_p->_a[\1]', None)],
+                            post=[(r'\A\{', '{ VF_ANCHOR VF_ANCHOR_B ', 1)])],
+    text=PRE + HELP_C + r'''
+static int Array_length(const Array* a) { return HDR(a)->n; }
+static void Array_resize(Array* self, int m) @@resize_b@@
+char* g_block2;
+#define BLK2 ((Data*)g_block2)
+#define ELEMS2 ((T*)(g_block2 + sizeof(Data)))
+#if SAME
+#define VF_ANCHOR_B __CPROVER_assert(BLK->n == FIX_N, "anchor n"); BLK->n = FIX_N;
+#define SRC(k) __CPROVER_old(ELEMS[k])
+#else
+#define VF_ANCHOR_B __CPROVER_assert(BLK->n == FIX_N && b_p->_a == ELEMS2 && BLK2->n == FIX_N, "anchor b"); BLK->n = FIX_N; ((Array*)b_p)->_a = ELEMS2; BLK2->n = FIX_N;
+#define SRC(k) ELEMS2[k]
+#endif
+void Array_append(Array* self, const Array* b_p)
+WF_REQ
+__CPROVER_requires(BLK->n == FIX_N && 0 <= g_k && g_k < 2 * FIX_N)
+#if SAME
+__CPROVER_requires(b_p == self)
+#else
+__CPROVER_requires(__CPROVER_is_fresh(b_p, sizeof(Array)) && __CPROVER_is_fresh(g_block2, sizeof(Data) + CAP * sizeof(T)) && b_p->_a == ELEMS2 && BLK2->n == FIX_N && BLK2->s == CAP && BLK2->rc >= 1)
+#endif
+/* view' = view ++ view(b) with b's ENTRY view (b may be this very array); nothing written beyond the new length */
+__CPROVER_ensures(HDR(self)->n == 2 * FIX_N && HDR(self)->s >= 2 * FIX_N)
+__CPROVER_ensures(self->_a[g_k] == (g_k < FIX_N ? __CPROVER_old(ELEMS[g_k < FIX_N ? g_k : 0]) : SRC(g_k >= FIX_N ? g_k - FIX_N : 0)))
+__CPROVER_ensures(g_ctor - __CPROVER_old(g_ctor) == FIX_N && g_dtor == __CPROVER_old(g_dtor))
+__CPROVER_assigns(*self, __CPROVER_object_whole(g_block), g_ctor, g_dtor; !SAME: b_p->_a, BLK2->n)
+__CPROVER_frees(g_block)
+@@app@@
+void vf_harness(void) { Array* a; const Array* b; Array_append(a, b); VF_CANARY(); }
+''',
+    entry='Array_append', kind='bounded', bound='capacity and length fixed per variant; contents, reference count symbolic', unwind=20,
+    variants={'CAP6_n2': ['-DCAP=6', '-DFIX_N=2', '-DSAME=0'], 'CAP3_n2': ['-DCAP=3', '-DFIX_N=2', '-DSAME=0'],
+              'CAP6_n2_SAME': ['-DCAP=6', '-DFIX_N=2', '-DSAME=1'], 'CAP6_n3_SAME': ['-DCAP=6', '-DFIX_N=3', '-DSAME=1'], 'CAP3_n2_SAME': ['-DCAP=3', '-DFIX_N=2', '-DSAME=1'], 'CAP3_n3_SAME': ['-DCAP=3', '-DFIX_N=3', '-DSAME=1']},
+    desc='append(const Array& b): the result is view ++ (entry view of b), no growth or with growth, also when b is the array itself; n constructions; nothing written past the new length',
+    functions=['Array::append(const Array&)', 'Array::resize', 'Array::reserve'],
+)
+UNITS += [append_arr]
